@@ -155,7 +155,7 @@ pub fn property() -> Property {
         parts: vec![Box::new(GenPart {
             name: "poison-then-probe",
             rule: "see property rule",
-            cases: (1_200_000, 5_000_000),
+            cases: (1_200_000, 20_000_000),
             fuzz_decode: Some(crate::fuzzdec::c16_case),
             strategy,
             check,
